@@ -97,12 +97,18 @@ br_rsa_i15_private(unsigned char *x, const br_rsa_private_key *sk)
 	 * Decode q.
 	 */
 	br_i15_decode(mq, q, qlen);
+#ifdef BR_VERIF
+	BR_VERIF_PUBLIC(&mq[0], sizeof mq[0]);
+#endif
 
 	/*
 	 * Decode p.
 	 */
 	t1 = mq + fwlen;
 	br_i15_decode(t1, p, plen);
+#ifdef BR_VERIF
+	BR_VERIF_PUBLIC(&t1[0], sizeof t1[0]);
+#endif
 
 	/*
 	 * Compute the modulus (product of the two factors), to compare
